@@ -28,7 +28,7 @@ import (
 	"golang.org/x/tools/go/ssa"
 )
 
-func (w *World) ownedRoot(v ssa.Value, seen map[ssa.Value]bool, depth int) (bool, string) {
+func (w *World) ownedRoot(v ssa.Value, seen map[ssa.Value]bool, depth int, content bool) (bool, string) {
 	if v == nil {
 		return true, ""
 	}
@@ -46,7 +46,7 @@ func (w *World) ownedRoot(v ssa.Value, seen map[ssa.Value]bool, depth int) (bool
 			return true, ""
 		case *ssa.Phi:
 			for _, e := range x.Edges {
-				if ok, why := w.ownedRoot(e, seen, depth+1); !ok {
+				if ok, why := w.ownedRoot(e, seen, depth+1, content); !ok {
 					return false, why
 				}
 			}
@@ -55,6 +55,16 @@ func (w *World) ownedRoot(v ssa.Value, seen map[ssa.Value]bool, depth int) (bool
 			return true, ""
 		}
 		return false, "error object " + v.Name() + " (" + v.Type().String() + ") is not allocated in this call"
+	}
+	if a, isAlloc := v.(*ssa.Alloc); isAlloc && content {
+		// asked about what the local HOLDS (a value read back / copied out of it), not about the
+		// local as a store target: everything stored into it must be owned
+		for _, sv := range storesInto(a) {
+			if ok, why := w.ownedRoot(sv, seen, depth+1, true); !ok {
+				return false, "local " + a.Comment + " holds " + why
+			}
+		}
+		return true, ""
 	}
 	switch x := v.(type) {
 	case *ssa.Alloc, *ssa.MakeSlice, *ssa.MakeMap, *ssa.MakeChan, *ssa.Const, *ssa.MakeClosure:
@@ -69,43 +79,56 @@ func (w *World) ownedRoot(v ssa.Value, seen map[ssa.Value]bool, depth int) (bool
 	case *ssa.Global:
 		return false, "package variable " + x.Name()
 	case *ssa.FieldAddr:
-		return w.ownedRoot(x.X, seen, depth+1)
+		return w.ownedRoot(x.X, seen, depth+1, content)
 	case *ssa.IndexAddr:
-		return w.ownedRoot(x.X, seen, depth+1)
+		return w.ownedRoot(x.X, seen, depth+1, content)
 	case *ssa.Field:
-		return w.ownedRoot(x.X, seen, depth+1)
+		return w.ownedRoot(x.X, seen, depth+1, content)
 	case *ssa.Index:
-		return w.ownedRoot(x.X, seen, depth+1)
+		return w.ownedRoot(x.X, seen, depth+1, content)
 	case *ssa.Slice:
-		return w.ownedRoot(x.X, seen, depth+1)
+		return w.ownedRoot(x.X, seen, depth+1, content)
 	case *ssa.Lookup:
-		return w.ownedRoot(x.X, seen, depth+1)
+		return w.ownedRoot(x.X, seen, depth+1, content)
 	case *ssa.ChangeType:
-		return w.ownedRoot(x.X, seen, depth+1)
+		return w.ownedRoot(x.X, seen, depth+1, content)
 	case *ssa.Convert:
-		return w.ownedRoot(x.X, seen, depth+1)
+		return w.ownedRoot(x.X, seen, depth+1, content)
 	case *ssa.ChangeInterface:
-		return w.ownedRoot(x.X, seen, depth+1)
+		return w.ownedRoot(x.X, seen, depth+1, content)
 	case *ssa.MakeInterface:
-		return w.ownedRoot(x.X, seen, depth+1)
+		return w.ownedRoot(x.X, seen, depth+1, content)
 	case *ssa.TypeAssert:
-		return w.ownedRoot(x.X, seen, depth+1)
+		return w.ownedRoot(x.X, seen, depth+1, content)
 	case *ssa.Extract:
-		return w.ownedRoot(x.Tuple, seen, depth+1)
+		return w.ownedRoot(x.Tuple, seen, depth+1, content)
 	case *ssa.Next:
-		return w.ownedRoot(x.Iter, seen, depth+1)
+		return w.ownedRoot(x.Iter, seen, depth+1, content)
 	case *ssa.Range:
-		return w.ownedRoot(x.X, seen, depth+1)
+		return w.ownedRoot(x.X, seen, depth+1, content)
 	case *ssa.UnOp:
 		if x.Op == token.MUL {
-			return w.ownedRoot(x.X, seen, depth+1)
+			// what is read back from a local variable is owned only if everything the function
+			// (or a closure capturing the variable) stores into that variable is owned: a callee's
+			// result parked in a local does not become the call's property
+			if a := allocRootOf(x.X); a != nil {
+				switch x.Type().Underlying().(type) {
+				case *types.Pointer, *types.Slice, *types.Map, *types.Struct, *types.Interface:
+					for _, sv := range storesInto(a) {
+						if ok, why := w.ownedRoot(sv, seen, depth+1, true); !ok {
+							return false, "read back from local " + a.Comment + ", which holds " + why
+						}
+					}
+				}
+			}
+			return w.ownedRoot(x.X, seen, depth+1, content)
 		}
 		return true, ""
 	case *ssa.BinOp:
 		return true, ""
 	case *ssa.Phi:
 		for _, e := range x.Edges {
-			if ok, why := w.ownedRoot(e, seen, depth+1); !ok {
+			if ok, why := w.ownedRoot(e, seen, depth+1, content); !ok {
 				return false, why
 			}
 		}
@@ -116,7 +139,7 @@ func (w *World) ownedRoot(v ssa.Value, seen map[ssa.Value]bool, depth int) (bool
 			case "append":
 				// the result may share the first argument's backing array
 				for _, a := range x.Call.Args {
-					if ok, why := w.ownedRoot(a, seen, depth+1); !ok {
+					if ok, why := w.ownedRoot(a, seen, depth+1, content); !ok {
 						return false, why
 					}
 				}
@@ -162,7 +185,7 @@ func (w *World) allocatingCallee(fn *ssa.Function, depth int) bool {
 			}
 			for _, r := range ret.Results {
 				switch r.Type().Underlying().(type) {
-				case *types.Pointer, *types.Slice, *types.Map:
+				case *types.Pointer, *types.Slice, *types.Map, *types.Struct:
 				default:
 					continue
 				}
@@ -238,7 +261,7 @@ func (w *World) ownedRootNoParams(v ssa.Value, seen map[ssa.Value]bool, depth in
 	if veto {
 		return false, "parameter"
 	}
-	return w.ownedRoot(v, seen, depth)
+	return w.ownedRoot(v, seen, depth, true)
 }
 
 // syntacticFrame generates the sframe obligations of fn.
@@ -265,16 +288,16 @@ func (w *World) syntacticFrame(fn *ssa.Function, topName string) []*Obligation {
 		for _, ins := range b.Instrs {
 			switch x := ins.(type) {
 			case *ssa.Store:
-				ok, why := w.ownedRoot(x.Addr, map[ssa.Value]bool{}, 0)
+				ok, why := w.ownedRoot(x.Addr, map[ssa.Value]bool{}, 0, false)
 				add(ins, "store target is owned by the call", ok, why)
 			case *ssa.MapUpdate:
-				ok, why := w.ownedRoot(x.Map, map[ssa.Value]bool{}, 0)
+				ok, why := w.ownedRoot(x.Map, map[ssa.Value]bool{}, 0, false)
 				add(ins, "updated map is owned by the call", ok, why)
 			case *ssa.Call:
 				cc := x.Common()
 				if b, isB := cc.Value.(*ssa.Builtin); isB {
 					if b.Name() == "delete" || b.Name() == "copy" {
-						ok, why := w.ownedRoot(cc.Args[0], map[ssa.Value]bool{}, 0)
+						ok, why := w.ownedRoot(cc.Args[0], map[ssa.Value]bool{}, 0, false)
 						add(ins, b.Name()+" target is owned by the call", ok, why)
 					}
 					continue
@@ -300,7 +323,7 @@ func (w *World) syntacticFrame(fn *ssa.Function, topName string) []*Obligation {
 					if !writes {
 						continue
 					}
-					ok, why := w.ownedRoot(a, map[ssa.Value]bool{}, 0)
+					ok, why := w.ownedRoot(a, map[ssa.Value]bool{}, 0, false)
 					add(ins, "argument "+fmt.Sprint(ai)+" of "+w.funcName(callee)+" (which may write through it) is owned by the call", ok, why)
 				}
 			}
@@ -388,6 +411,68 @@ func (w *World) formatDelegation() []*FuncResult {
 		}
 		o.Queries = []*Query{q}
 		out = append(out, &FuncResult{Name: name, Fn: fn, Obls: []*Obligation{o}})
+	}
+	return out
+}
+
+// allocRootOf: the local variable an address is rooted in through field / element addressing only.
+func allocRootOf(v ssa.Value) *ssa.Alloc {
+	for i := 0; i < 12; i++ {
+		switch x := v.(type) {
+		case *ssa.Alloc:
+			return x
+		case *ssa.FieldAddr:
+			v = x.X
+		case *ssa.IndexAddr:
+			v = x.X
+		default:
+			return nil
+		}
+	}
+	return nil
+}
+
+// storesInto: the values stored into local variable a by its function and by the closures that
+// capture it (through the corresponding free variable).
+func storesInto(a *ssa.Alloc) []ssa.Value {
+	var out []ssa.Value
+	var scan func(fn *ssa.Function, root ssa.Value)
+	scan = func(fn *ssa.Function, root ssa.Value) {
+		for _, b := range fn.Blocks {
+			for _, ins := range b.Instrs {
+				switch x := ins.(type) {
+				case *ssa.Store:
+					r := x.Addr
+					for i := 0; i < 12; i++ {
+						if fa, ok := r.(*ssa.FieldAddr); ok {
+							r = fa.X
+							continue
+						}
+						if ia, ok := r.(*ssa.IndexAddr); ok {
+							r = ia.X
+							continue
+						}
+						break
+					}
+					if r == root {
+						out = append(out, x.Val)
+					}
+				case *ssa.MakeClosure:
+					cf, ok := x.Fn.(*ssa.Function)
+					if !ok {
+						continue
+					}
+					for bi, bnd := range x.Bindings {
+						if bnd == root && bi < len(cf.FreeVars) {
+							scan(cf, cf.FreeVars[bi])
+						}
+					}
+				}
+			}
+		}
+	}
+	if a.Parent() != nil {
+		scan(a.Parent(), a)
 	}
 	return out
 }
